@@ -1184,6 +1184,17 @@ impl Interp {
                 }
                 Act::SetOracle { v, price }
             }
+            Op::Handover { to } => {
+                // the pauser role is handed to a trading account (or back to the deployment's pauser account)
+                let mut cands: Vec<String> = self.w.traders.clone();
+                cands.push("pauser".to_string());
+                cands.push("pauser".to_string());
+                let to = cands[(*to as usize) % cands.len()].clone();
+                Act::EngineAdmin {
+                    sender: self.w.pauser.clone(),
+                    msg: eng::ExecuteMsg::UpdatePauser { pauser: to },
+                }
+            }
             Op::Burst { v, who, n } => {
                 // a run of funding periods, each settled once: n x (a block one funding period later, PayFunding); the
                 // engine's per-market list of cumulative fractions and the vAMM's snapshot list grow by one entry each
@@ -1273,6 +1284,8 @@ impl Interp {
             if r.ok {
                 if let eng::ExecuteMsg::SetPause { pause } = msg {
                     self.w.paused = pause;
+                } else if let eng::ExecuteMsg::UpdatePauser { pauser } = &msg {
+                    self.w.pauser = pauser.clone();
                 } else if let eng::ExecuteMsg::UpdateConfig { fee_pool: Some(p), .. } = &msg {
                     self.w.fee_pool = Addr::unchecked(p);
                 }
